@@ -65,7 +65,7 @@ Theorem live_step b o l st : lwf b l = true -> operands_ok o = true ->
                  lentries l' = estep (lentries l) o.
 Proof.
   intros H Ho Hr Hst. destruct (live_step_tree b o l H Ho Hr) as (l' & Ha & Ht & Hw & Hc & He).
-  destruct (op_step_tree_all o (ltree l) (ltree l') st (operands_ok_new o Ho) (ereplace_ready_ltree o l) Hst Ht) as (st' & R & Hst').
+  destruct (op_step_tree_all o (ltree l) (ltree l') st (operands_ok_new o Ho) eq_refl (ereplace_ready_ltree o l) Hst Ht) as (st' & R & Hst').
   exists l', st'. auto 10.
 Qed.
 
